@@ -218,8 +218,8 @@ def initStore (grad : Bool) (s : Init2 α) (r c : Nat) (v : α) (sz sx : Int) : 
            sgn := if grad then s.sgn.set r c (sz, sx) else s.sgn }
 
 /-- One iteration of the east (`east = true`, `j` ascending, predecessor `j-1`) or west loop of
-the source-row initialisation.  `rowTaueUp` is the row from which `taue` is read in the
-`dzu > 0` block (the code reads `zsi` in the east loop and `zsi + 1` in the west loop). -/
+the source-row initialisation (both loops read `taue` from their own row: `zsi + 1` in the
+`dzd > 0` block, `zsi` in the `dzu > 0` block). -/
 def initXStep (p : Par2 α) (slow : Grid2 α) (grad : Bool) (zsi : Nat) (dzu dzd : α) (east : Bool)
     (s : Init2 α) (j : Nat) : Init2 α :=
   let jp := if east then j - 1 else j + 1
@@ -243,8 +243,7 @@ def initXStep (p : Par2 α) (slow : Grid2 α) (grad : Bool) (zsi : Nat) (dzu dzd
   if gt dzu zero then
     let dzi := one / (dzu * p.dz)
     let dz2i := dzi / (dzu * p.dz)
-    let rowT := if east then zsi else zsi + 1
-    let taue := s.tt.get zero rowT jp - tAna rowT jp p.dz p.dx p.zsa p.xsa p.vzero
+    let taue := s.tt.get zero zsi jp - tAna zsi jp p.dz p.dx p.zsa p.xsa p.vzero
     let (t0c, tzc, txc) := tAnad zsi j p.dz p.dx p.zsa p.xsa p.vzero
     let v := delta (s.tt.get zero zsi j) tauv taue tauev t0c tzc txc dzi p.dxi dz2i p.dx2i
                p.vzero vref (-1) sx
